@@ -1,6 +1,7 @@
 """C02 — requested work is conserved: every request is started once or dropped once."""
+from ..core import hx
 ID = "C02"
-PROPS = ["F1Verif.Props.C02", "F1Verif.Props.FactsC02", "F1Verif.Props.RefineC02", "F1Verif.Props.RefineC02W", "F1Verif.Props.RefineC05S"]
+PROPS = ["F1Verif.Props.C02", "F1Verif.Props.FactsC02", "F1Verif.Props.RefineC02", "F1Verif.Props.RefineC02W", "F1Verif.Props.RefineC05S", "F1Verif.Props.RefineC09W"]
 ALSO = ["F1Verif.Props.Pool"]
 RULE = ("engine A: random set/none/take sequences on the real pending-counter type vs the model; engine B: scripted "
         "schedules on the real TriggerPool with gated iterations through the yield points pool.trigger.accepted (a tick "
@@ -18,6 +19,7 @@ ASSUMPTIONS = ["sync.Mutex / sync.Cond semantics (Wait releases the lock and re-
 
 def corpus():
     return [
+        "cli mode=constant rate=%s dist=%s dur=%s conc=1 bodyms=700 pushgw=ok static=1 igndrop=1 meaning=1" % (hx("2/200ms"), hx("none"), hx("1s")),   # C02n: drops are reported also with static labels and a push gateway configured
         "progress.stress 8 100000 0 2",                     # C02k: every second record is a drop, against a snapshot loop
         "progress.stress 4 200000 3 1",
         "pool.script 2 18446744073709551615 t2;s;t3;s;f2;s",  # C02l: a limit beyond 2^63 is no limit at all
@@ -88,6 +90,9 @@ def generate(rng, tier):
 
 
 def compare(rec):
+    if rec["case"].startswith("cli "):
+        from . import _plan
+        return _plan.cli_compare(rec)
     if rec["model"] == "-":
         return None
     if rec["case"].startswith("pool.script"):
